@@ -187,6 +187,11 @@ theorem feed_recorder (b : List Chunk) (cs : List Chunk) : feed b cs = (b ++ cs,
   | cons c cs ih =>
     cases c <;> simp [feed, put, FmtWrite.writeStr, FmtWrite.writeChar, ih]
 
+theorem feed_null (cs : List Chunk) : feed () cs = ((), true) := by
+  induction cs with
+  | nil => rfl
+  | cons c cs ih => cases c <;> simp [feed, put, FmtWrite.writeStr, FmtWrite.writeChar, ih]
+
 /-- What feeding chunks does to a `WriteWrapper` that has not failed yet. -/
 theorem feed_spec (cs : List Chunk) (w : WriteWrapper) (hw : w.err = none) :
     ∃ new, (feed w cs).1.calls = w.calls ++ new ∧ delivered new <+: flat cs ∧
